@@ -54,6 +54,8 @@ func (f *flushComp) Generate(rng *rand.Rand, n int, emit func(Case)) {
 	// listener does at the timeout, the records must be the lines (C08_flush_single_line with the real flush placement)
 	emit(Case{Ops: []Op{{Name: "flushl pause", Ints: []int64{20, 1300}}}, Tag: "corpus"})
 	emit(Case{Ops: []Op{{Name: "flushl pause", Ints: []int64{-1, 1300}}}, Tag: "corpus"})
+	// … and a stall that spans several consecutive read timeouts with nothing received in between
+	emit(Case{Ops: []Op{{Name: "flushl pause", Ints: []int64{40, 2900}}}, Tag: "corpus"})
 	for i := 0; i < n; i++ {
 		if i%16 == 3 {
 			emit(Case{Ops: []Op{{Name: "flushl pause", Ints: []int64{int64(rng.Intn(60)) - 1, int64(1100 + rng.Intn(400))}}}, Tag: "listener-pause"})
